@@ -247,11 +247,18 @@ class DBFSStore(Store):
                     f"Could not read metadata for key {key}: {_pprint_exception(e)}"
                 )
                 meta = None
+            # A record written by a links-only commit has no copy of the data next to it:
+            # a full commit must then still make the copy, even if the key is the same.
+            # (records of older versions do not say: the copy is made again, once)
+            has_copy = False
             if meta is not None:
-                redir_key = json.loads(meta)["redirection_key"]
+                redir = json.loads(meta)
+                redir_key = redir["redirection_key"]
+                has_copy = bool(redir.get("full_copy", False))
             else:
                 redir_key = None
-            if redir_key is None or redir_key != key:
+            needs_copy = self._commit_type == CommitType.FULL and not has_copy
+            if redir_key is None or redir_key != key or needs_copy:
                 _logger.debug(
                     f"Path {dds_p} needs update (registered key {redir_key} != {key})"
                 )
@@ -278,7 +285,12 @@ class DBFSStore(Store):
                     _logger.debug(f"Skip copy for {obj_path} (links-only commit)")
                 _logger.debug(f"Linking new file {obj_path}")
                 try:
-                    meta = json.dumps({"redirection_key": key})
+                    meta = json.dumps(
+                        {
+                            "redirection_key": key,
+                            "full_copy": self._commit_type == CommitType.FULL,
+                        }
+                    )
                     self._put(redir_path, meta)
                 except Exception as e:
                     _logger.warning(
